@@ -1574,9 +1574,13 @@ func hasRefFields(t types.Type, depth int) bool {
 // interface fields from the original (*clone = *orig), because the copy shares
 // the original's backing arrays and pooled parts; the later field-by-field
 // work then writes into memory the original still uses.
-func sharedNoShallowCopy(c *an.Ctx, rule string, prefix string) (examined int) {
+func sharedNoShallowCopy(c *an.Ctx, rule string, prefix string, onlyTypes ...string) (examined int) {
 	for _, fn := range c.AllFns {
 		if fn.Blocks == nil || c.IsTestFile(fn.Pos()) || !strings.HasPrefix(an.FnKey(fn), prefix) {
+			continue
+		}
+		// helper packages for tests (filtertest, dnsservertest, …) are not production code
+		if pkg := an.FnPkg(fn); pkg != nil && strings.HasSuffix(pkg.Name(), "test") {
 			continue
 		}
 		k := an.FnKey(fn)
@@ -1591,6 +1595,17 @@ func sharedNoShallowCopy(c *an.Ctx, rule string, prefix string) (examined int) {
 			}
 			if _, isStruct := ld.Type().Underlying().(*types.Struct); !isStruct {
 				return
+			}
+			if len(onlyTypes) > 0 {
+				match := false
+				for _, t := range onlyTypes {
+					if an.TypeName(ld.Type()) == t {
+						match = true
+					}
+				}
+				if !match {
+					return
+				}
 			}
 			if _, fromLocal := ld.X.(*ssa.Alloc); fromLocal {
 				return
@@ -3280,6 +3295,237 @@ func sharedPerIterationObjects(c *an.Ctx, rule string, prefixes ...string) (exam
 					examined--
 				}
 			}
+		}
+	}
+	return examined
+}
+
+// sharedFreshDecodeTarget is the rule for record decoders that leave absent
+// fields untouched (maxminddb's Lookup / Network): the struct they decode into
+// must be a zero value created for that one call, i.e. a local variable of the
+// calling function that is not allocated outside an enclosing loop.  A target
+// passed in from a caller or kept across iterations inherits the previous
+// record's fields for every key the current record lacks.  Returns the number
+// of decoder calls examined.
+func sharedFreshDecodeTarget(c *an.Ctx, rule string, prefixes ...string) (examined int) {
+	isDecoder := func(n string) bool {
+		return strings.HasSuffix(n, "maxminddb-golang.Networks).Network") || strings.HasSuffix(n, "maxminddb-golang.Reader).Lookup") ||
+			strings.HasSuffix(n, "maxminddb-golang.Reader).LookupNetwork") || strings.HasSuffix(n, "maxminddb-golang.Reader).Decode")
+	}
+	for _, fn := range c.AllFns {
+		if fn.Blocks == nil || c.IsTestFile(fn.Pos()) {
+			continue
+		}
+		k := an.FnKey(fn)
+		in := false
+		for _, p := range prefixes {
+			if strings.HasPrefix(k, p) {
+				in = true
+			}
+		}
+		if !in {
+			continue
+		}
+		loops := naturalLoops(fn)
+		for _, call := range an.Calls(fn) {
+			if !isDecoder(an.CalleeName(call)) {
+				continue
+			}
+			args := call.Common().Args
+			target := args[len(args)-1]
+			if mi, ok := target.(*ssa.MakeInterface); ok {
+				target = mi.X
+			}
+			examined++
+			c.Analysed(k)
+			key := fmt.Sprintf("%s decodes into a fresh value (%s)", k, an.Short(an.CalleeName(call)))
+			al, ok := target.(*ssa.Alloc)
+			switch {
+			case an.IsNilConst(target):
+				c.Ok(rule, key, call.Pos(), "a nil target: the call only checks that the database can be read")
+			case !ok:
+				if pa, isP := target.(*ssa.Parameter); isP {
+					// a helper that decodes into its caller's value: acceptable only if every caller passes a fresh one;
+					// today's tree has one such helper, which checks a database's metadata once
+					sites, _ := c.ArgSites(fn, an.ParamIndex(pa))
+					fresh := len(sites) > 0
+					for _, s := range sites {
+						if a2, isA := s.Val.(*ssa.Alloc); !isA {
+							fresh = false
+						} else {
+							for _, l := range naturalLoops(a2.Parent()) {
+								if l.blocks[s.Call.Block()] && !l.blocks[a2.Block()] {
+									fresh = false
+								}
+							}
+						}
+					}
+					c.Check(fresh, rule, key, call.Pos(), "every caller passes a value created for the call",
+						"the decode target is the caller's value "+pa.Name()+", which at least one caller keeps across calls: fields absent from a record keep the previous record's values")
+					continue
+				}
+				c.Und(rule, key, call.Pos(), "decode target is neither a local variable nor a parameter")
+			default:
+				bad := false
+				for _, l := range loops {
+					if l.blocks[call.Block()] && !l.blocks[al.Block()] {
+						bad = true
+					}
+				}
+				c.Check(!bad, rule, key, call.Pos(), "the target is a zero value created for this call",
+					"the decode target is created once outside the loop and reused for every record: fields absent from a record keep the previous record's values")
+			}
+		}
+	}
+	return examined
+}
+
+// sharedPooledBufferEscape is the lifetime rule for pooled scratch buffers: in
+// a function that takes a byte buffer from a pool and gives it back (Put,
+// deferred or not), no slice derived from the buffer -- a reslice, an append
+// onto it, or the result of a repository function that returns a slice built on
+// its slice argument -- may be stored into an object that outlives the
+// function (a field of anything but a local that does not escape).  Otherwise
+// the next user of the pooled buffer rewrites data that a message still points
+// to.  Returns the number of Get/Put pairs examined.
+func sharedPooledBufferEscape(c *an.Ctx, rule string, prefixes ...string) (examined int) {
+	// summary: parameters on which a returned slice is built
+	passes := map[*ssa.Function]map[int]bool{}
+	var derivedFrom func(v ssa.Value, roots map[ssa.Value]bool, d int) bool
+	derivedFrom = func(v ssa.Value, roots map[ssa.Value]bool, d int) bool {
+		if v == nil || d > 10 {
+			return false
+		}
+		if roots[v] {
+			return true
+		}
+		switch x := v.(type) {
+		case *ssa.Slice:
+			return derivedFrom(x.X, roots, d+1)
+		case *ssa.ChangeType:
+			return derivedFrom(x.X, roots, d+1)
+		case *ssa.Convert:
+			return derivedFrom(x.X, roots, d+1)
+		case *ssa.Phi:
+			for _, e := range x.Edges {
+				if derivedFrom(e, roots, d+1) {
+					return true
+				}
+			}
+		case *ssa.Call:
+			if b, ok := x.Call.Value.(*ssa.Builtin); ok && b.Name() == "append" {
+				return derivedFrom(x.Call.Args[0], roots, d+1)
+			}
+			if callee := an.StaticCallee(x); callee != nil {
+				for i := range passes[callee] {
+					if i < len(x.Call.Args) && derivedFrom(x.Call.Args[i], roots, d+1) {
+						return true
+					}
+				}
+			}
+		case *ssa.Extract:
+			if call, ok := x.Tuple.(*ssa.Call); ok && x.Index == 0 {
+				return derivedFrom(call, roots, d+1)
+			}
+		}
+		return false
+	}
+	for round := 0; round < 2; round++ {
+		for _, fn := range c.AllFns {
+			if fn.Blocks == nil || c.IsTestFile(fn.Pos()) || !c.InRepo(fn) {
+				continue
+			}
+			for i, pa := range fn.Params {
+				if _, isSl := pa.Type().Underlying().(*types.Slice); !isSl {
+					continue
+				}
+				for _, r := range an.Returns(fn) {
+					for _, res := range r.Results {
+						if _, isSl := res.Type().Underlying().(*types.Slice); isSl && derivedFrom(res, map[ssa.Value]bool{pa: true}, 0) {
+							if passes[fn] == nil {
+								passes[fn] = map[int]bool{}
+							}
+							passes[fn][i] = true
+						}
+					}
+				}
+			}
+		}
+	}
+	for _, fn := range c.AllFns {
+		if fn.Blocks == nil || c.IsTestFile(fn.Pos()) {
+			continue
+		}
+		k := an.FnKey(fn)
+		in := false
+		for _, p := range prefixes {
+			if strings.HasPrefix(k, p) {
+				in = true
+			}
+		}
+		if !in {
+			continue
+		}
+		for _, get := range an.Calls(fn) {
+			gc, ok := get.(*ssa.Call)
+			if !ok || !isPoolGet(get) || !isByteSlicePtr(gc.Type()) {
+				continue
+			}
+			// is the pointer given back in this function?
+			put := false
+			for _, pc := range an.Calls(fn) {
+				if isPoolPut(pc) {
+					for _, a := range pc.Common().Args {
+						if a == ssa.Value(gc) {
+							put = true
+						}
+					}
+				}
+			}
+			if !put {
+				continue
+			}
+			examined++
+			c.Analysed(k)
+			roots := map[ssa.Value]bool{}
+			if gc.Referrers() != nil {
+				for _, r := range *gc.Referrers() {
+					if ld, ok := r.(*ssa.UnOp); ok && ld.Op == token.MUL {
+						roots[ld] = true
+					}
+				}
+			}
+			bad := ""
+			an.Instrs(fn, func(in ssa.Instruction) {
+				st, ok := in.(*ssa.Store)
+				if !ok {
+					return
+				}
+				if _, isSl := st.Val.Type().Underlying().(*types.Slice); !isSl || !derivedFrom(st.Val, roots, 0) {
+					return
+				}
+				// writing the grown buffer back through the pool pointer is the normal idiom
+				if st.Addr == ssa.Value(gc) {
+					return
+				}
+				switch a := st.Addr.(type) {
+				case *ssa.FieldAddr:
+					if al, isAlloc := a.X.(*ssa.Alloc); isAlloc && !al.Heap {
+						return
+					}
+					_, f, _, _ := an.FieldOf(a)
+					bad = "stored into field " + f
+				case *ssa.IndexAddr:
+					bad = "stored into an element of another container"
+				case *ssa.Alloc:
+					if a.Heap {
+						bad = "stored into a variable that escapes"
+					}
+				}
+			})
+			c.Check(bad == "", rule, k+" keeps nothing built on its pooled buffer", get.Pos(),
+				"no slice built on the pooled buffer is stored into a longer-lived object",
+				"a slice built on the pooled buffer is "+bad+" although the buffer goes back to the pool when the function returns: the next user of the buffer overwrites it")
 		}
 	}
 	return examined
